@@ -101,7 +101,8 @@ def validate(ctx, paths, nshards, parallel=None):
 
 
 def run_x86(ctx):
-    """x86-64 part of the structure clause (variable-length instructions, translation windows cut instructions):
+    """x86-64 / x86 / AArch64 (both data endiannesses) part of the structure clause (variable-length instructions cut
+    by translation windows; fixed-width instructions without delay slots, some of which lift to no IL instruction):
     programs laid out from a table of encodings of known length and kind, recovered function projected to native
     offsets, judged by Trace_C06X against Recover.tla's reachability / successor relation."""
     q = ctx.quick
@@ -120,6 +121,7 @@ def run_x86(ctx):
     for p in paths:
         for e in ctx.read_ndjson(p):
             feats["programs"] += 1
+            feats["arch:" + e["mode"]] += 1
             feats["longer_than_one_window"] += e["size"] - e["entry"] > 64
             feats["entry_in_the_middle"] += e["entry"] > 0
             feats["manual_edges"] += len(e["manual"]) > 0
@@ -177,7 +179,7 @@ def run(ctx):
         "word alone attaches to its address",
         "jal is a call: its target belongs to another function, recovery continues behind the delay slot",
         "not judged (unspecified): programs that leave the code, branches in delay slots, instructions outside Mips.tla",
-        "x86-64 part: the description of each program (instruction offsets, lengths, kinds, targets) comes from the "
+        "x86-64 / x86 / AArch64 part: the description of each program (instruction offsets, lengths, kinds, targets) comes from the "
         "generator's own encoding table, not from the disassembler; only the structure clause is judged there",
     ]
 
